@@ -41,18 +41,37 @@ def main():
                    ((1, 1), (1, 1), (-6.0, 2.0), (2, (64, 64, 4)))]
         if not thorough:
             configs = configs[:3]
-        for ci, (ia, xa, sa, (bpv, bs)) in enumerate(configs):
+        # a ZGY-sourced file: its sample axis is stored in double precision (fractional start and interval)
+        configs.append(((12, 2), (300, 5), rng.choice([(2.5, 4.0), (-12.5, 2.5), (100.25, 0.5)]), (4, (4, 4, -1)), 'zgy'))
+        for ci, cfg in enumerate(configs):
+            (ia, xa, sa, (bpv, bs)), source = cfg[:4], (cfg[4] if len(cfg) > 4 else 'numpy')
             n_il, n_xl, ns = rng.choice([5, 6, 9]), rng.choice([4, 7]), rng.choice([13, 21, 30])
             il, xl = axis(ia[0], ia[1], n_il), axis(xa[0], xa[1], n_xl)
             zs = np.array([sa[0] + sa[1] * k for k in range(ns)], dtype=np.float64)
             src = rnd_cube(rng, (n_il, n_xl, ns))
             p = os.path.join(d, f'c{ci}.sgz')
-            write_numpy_sgz(p, src, bpv=bpv, blockshape=bs, ilines=il, xlines=xl, samples=zs)
-            label = {'ilines': [int(il[0]), int(ia[1]), n_il], 'xlines': [int(xl[0]), int(xa[1]), n_xl], 'samples': [sa[0], sa[1], ns], 'layout': list(bs)}
+            if source == 'zgy':
+                try:
+                    import pyzgy
+                    from pyzgy.write import SeismicWriter
+                    from seismic_zfp.conversion import ZgyConverter
+                    zp = os.path.join(d, f'c{ci}.zgy')
+                    with SeismicWriter(zp, size=(n_il, n_xl, ns), zstart=sa[0], zinc=sa[1], annotstart=(ia[0], xa[0]), annotinc=(ia[1], xa[1]), corners=None) as w:
+                        w.write_volume(np.ascontiguousarray(src, dtype=np.float32))
+                    with pyzgy.open(zp) as h:
+                        il, xl, zs = np.array(h.ilines), np.array(h.xlines), np.array(h.samples, dtype=np.float64)
+                    with quiet(ZgyConverter, zp) as c:
+                        quiet(c.run, p, bits_per_voxel=bpv, blockshape=bs)
+                except Exception as e:
+                    R.violation('oracle', {'source': 'zgy', 'samples': [sa[0], sa[1], ns]}, f'converting a generated ZGY cube raised {type(e).__name__}: {e}')
+                    continue
+            else:
+                write_numpy_sgz(p, src, bpv=bpv, blockshape=bs, ilines=il, xlines=xl, samples=zs)
+            label = {'ilines': [int(il[0]), int(ia[1]), n_il], 'xlines': [int(xl[0]), int(xa[1]), n_xl], 'samples': [sa[0], sa[1], ns], 'layout': list(bs), 'source': source}
             with SgzReader(p) as r:
                 V = r.read_volume()
                 if list(r.ilines) != list(il) or list(r.xlines) != list(xl) or not np.allclose(r.zslices, zs):
-                    R.violation('oracle', label, f'axes of the file differ from the source axes: {list(r.ilines)} {list(r.xlines)}')
+                    R.violation('oracle', label, f'axes of the file differ from the source axes: inlines {[int(v) for v in r.ilines]} crosslines {[int(v) for v in r.xlines]} samples {[float(v) for v in r.zslices[:3]]}.. (source samples {[float(v) for v in zs[:3]]}..)')
                     continue
                 # ---- on-axis values
                 for i, v in enumerate(il):
@@ -149,6 +168,27 @@ def main():
                         inp = dict(label, call=f'{name}[{k}]', length=n, expect='IndexError')
                         R.case(('acc-off', ci, name, k), sample=inp)
                         expect_index_error(lambda: acc[k], inp)
+                # ---- subvolume[a:b:c, ...] by coordinate with steps (whole multiples of the axis increment, in axis order):
+                #      the stepped slice of the decoded volume, whatever the remainder of the extent modulo the step
+                zi_ = [int(v) for v in zs]
+                for _ in range((24 if thorough else 12) if all(float(v).is_integer() for v in zs) else 0):
+                    sl3, want3 = [], []
+                    for ax_, n_ in ((list(map(int, il)), n_il), (list(map(int, xl)), n_xl), (zi_, ns)):
+                        inc_ = ax_[1] - ax_[0]
+                        i0 = rng.randrange(0, n_ - 1)
+                        i1 = rng.randrange(i0 + 1, n_ + 1)
+                        k_ = rng.choice([1, 2, 3, 4, 5])
+                        sl3.append(slice(ax_[i0], ax_[i1] if i1 < n_ else ax_[-1] + inc_, k_ * inc_))
+                        want3.append(slice(i0, i1, k_))
+                    inp = dict(label, call='subvolume[' + ', '.join(f'{s_.start}:{s_.stop}:{s_.step}' for s_ in sl3) + ']')
+                    R.case(('subvol-step', ci, inp['call']), sample=inp)
+                    try:
+                        got = np.array(f.subvolume[sl3[0], sl3[1], sl3[2]])
+                        want_ = V[want3[0], want3[1], want3[2]]
+                        if got.shape != want_.shape or not bits_equal(got, want_):
+                            R.violation('oracle', inp, f'subvolume with steps returned shape {got.shape}; the stepped slice of the decoded volume has shape {want_.shape}' if got.shape != want_.shape else 'subvolume with steps differs from the stepped slice of the decoded volume')
+                    except Exception as e:
+                        R.violation('oracle', inp, f'valid stepped sub-volume raised {type(e).__name__}: {e}')
             os.remove(p)
     finally:
         shutil.rmtree(d, ignore_errors=True)
